@@ -248,7 +248,7 @@ pub fn measured_full<T>(forbid: bool, statics: bool, record: bool, f: impl FnOnc
     if statics {
         crate::statics::snapshot();
     }
-    let seam0 = if statics { crate::seam::snapshot() } else { [0; 5] };
+    let seam0 = if statics { crate::seam::snapshot() } else { [0; crate::seam::NK] };
     if record {
         alloc::record_start();
     }
@@ -696,10 +696,7 @@ fn render_find(out: &mut String, r: &Result<tz::datetime::FoundDateTimeList, tz:
             out.push_str(" latest=");
             canon::opt_dt(out, &l.latest());
             out.push_str(" list=[");
-            for f in l.clone().into_inner() {
-                canon::found(out, &f);
-                out.push(';');
-            }
+            canon::found_list(out, l.clone().into_inner().iter());
             out.push_str("])");
         }
         Err(e) => canon::tzerr(out, e),
@@ -1299,7 +1296,16 @@ pub fn run_op<'c>(ctx: &'c Ctx<'c>, me: usize, st: &mut ActorState<'c>, opi: usi
             let v: &str = &v;
             let local = kind == "ambient_local";
             AMBIENT_READS.with(|r| r.borrow_mut().clear());
+            let seam0 = crate::seam::snapshot();
             let (a, _m) = measured(false, || if local { TimeZone::local() } else { TimeZone::from_posix_tz(v) });
+            // the default settings may read the environment and the file system - that is their job - but have no
+            // business with the standard streams or with file locks (both shared with every other thread and process)
+            let seam1 = crate::seam::snapshot();
+            for k in [5usize, 6] {
+                if seam1[k] != seam0[k] {
+                    harness(|| push_violation(armed, "C15.ambient_read", &crate::seam::KINDS[k].replace(' ', "-"), format!("TZ {v:?} through the default settings used the {} {} time(s)", crate::seam::KINDS[k], seam1[k] - seam0[k])));
+                }
+            }
             let default_reads = AMBIENT_READS.with(|r| r.borrow().len());
             let (b, _m) = measured(false, || {
                 let s = TimeZoneSettings::new(TimeZoneSettings::DEFAULT_DIRECTORIES, ambient_read);
